@@ -709,6 +709,7 @@ pub fn explore(bound: usize, cap: u64, wall: std::time::Duration, run: &mut dyn 
         }
         stats.max_preemptions = stats.max_preemptions.max(cost_before);
         let mut cost = cost_before;
+        let mut alts: Vec<Vec<usize>> = Vec::new();
         for i in prefix.len()..x.points.len() {
             let p = &x.points[i];
             for alt in 1..p.enabled.len() {
@@ -718,12 +719,20 @@ pub fn explore(bound: usize, cap: u64, wall: std::time::Duration, run: &mut dyn 
                 }
                 let mut np = x.choices[..i].to_vec();
                 np.push(alt);
-                stack.push(np);
+                alts.push(np);
             }
             if x.choices[i] != 0 && p.running_enabled {
                 cost += 1;
             }
         }
+        // The order in which the alternatives of one execution are taken up does not change what is explored (every
+        // node is expanded once), only what is reached first when a cap ends the phase: alternate between "latest point
+        // first" and "earliest point first", so that a race at the very beginning of a long call (a lazily built index)
+        // and one at its end are both reached early.
+        if stats.executions % 2 == 0 {
+            alts.reverse();
+        }
+        stack.extend(alts);
     }
     Ok(stats)
 }
